@@ -530,7 +530,7 @@ def run_series(ctx: Ctx, recipe: Dict[str, Any], cid: str) -> Case:
                 tags.add("rate:present")
                 nontrivial = True
                 # measured distance of the float from the exact quotient (design/C20.md, "float rates")
-                for k, x in enumerate(rates):
+                for k, x in enumerate(rates if cid.endswith(("0", "5")) else []):   # a fifth of the series
                     pv = prev_vals[k] if prev_vals else None
                     if x is not None and isinstance(pv, int) and isinstance(vals[k], int) and vals[k] > pv:
                         exact = Fraction((vals[k] - pv) * 10**6, (1024 if k < 2 else 1) * (t - prev_t))
